@@ -38,6 +38,9 @@ structure Env where
   npName : String → Option String
   /-- `GEFF_VERSION` (first two components of the installed geff_spec version) -/
   defaultVersion : String
+  /-- code variant: `axes_from_lists` compares `len(axis_offset)` with `len(axis_names)` (`true`, the
+  repair of D17 owned by C10) or with itself (`false`, the pinned tree).  No theorem depends on it. -/
+  offsetLenChecked : Bool := false
 
 def Env.versionOk (env : Env) (s : String) : Bool := env.pat Gen.Schema.VERSION_PATTERN s
 
@@ -398,9 +401,8 @@ def lenMismatch {α : Type} (l : Option (List α)) (n : Nat) : Bool :=
   | some xs => xs.length != n
   | none => false
 
-/-- `axes_from_lists`.  `checkOffsetLen` is `true` once the self-comparison of the `axis_offset`
-length test (D17, owned by C10) is repaired; the correspondence never depends on it. -/
-def axesFromLists (checkOffsetLen : Bool) (names : Option (List String))
+/-- `axes_from_lists` -/
+def axesFromLists (env : Env) (names : Option (List String))
     (units types : Option (List (Option String))) (scales : Option (List (Option F)))
     (scaledUnits : Option (List (Option String))) (offset roiMin roiMax : Option (List (Option F))) :
     Except Err (List Axis) :=
@@ -411,7 +413,7 @@ def axesFromLists (checkOffsetLen : Bool) (names : Option (List String))
     else if lenMismatch types ns.length then .error .value
     else if lenMismatch scales ns.length then .error .value
     else if lenMismatch scaledUnits ns.length then .error .value
-    else if checkOffsetLen && lenMismatch offset ns.length then .error .value
+    else if env.offsetLenChecked && lenMismatch offset ns.length then .error .value
     else axesLoop ns units types scaledUnits scales offset roiMin roiMax 0 ns
 
 /-- `new_meta.axes = axes` where `axes` is a list of already validated `Axis` instances
@@ -423,11 +425,11 @@ def assignAxes (o : MetaObj) (axes : List Axis) : Except Err MetaObj :=
   else .error .validation
 
 /-- `update_metadata_axes`: returns a new object; the argument is never modified -/
-def updateMetadataAxes (checkOffsetLen : Bool) (o : MetaObj) (names : List String)
+def updateMetadataAxes (env : Env) (o : MetaObj) (names : List String)
     (units types : Option (List (Option String))) (scales : Option (List (Option F)))
     (scaledUnits : Option (List (Option String))) (offset : Option (List (Option F))) :
     Except Err MetaObj := do
-  let axes ← axesFromLists checkOffsetLen (some names) units types scales scaledUnits offset none none
+  let axes ← axesFromLists env (some names) units types scales scaledUnits offset none none
   assignAxes (copy o) axes
 
 def unwrapAssign (r : Option Err × MetaObj) : Except Err MetaObj :=
@@ -625,7 +627,7 @@ def ofDump : J → Option Meta
     let ellipsoid ← ofDumpOptStr (lookup kvs "ellipsoid")
     let track_node_props ← match lookup kvs "track_node_props" with
       | some .null => some none
-      | some (.obj l) => (l.mapM (fun kv => do let s ← ofDumpStr (some kv.2); return (kv.1, s))).map some
+      | some (.obj l) => (l.mapM (fun (kv : String × J) => do let s ← ofDumpStr (some kv.2); return (kv.1, s))).map some
       | _ => none
     let related_objects ← match lookup kvs "related_objects" with
       | some .null => some none
